@@ -560,6 +560,52 @@ def gen_query(rng):
     return rng.choice('&&&;').join(parts)
 
 
+PORT_POOL = sorted(set(NET.values()))
+
+
+def port_candidates(scheme):
+    """own default, every other scheme's default, default±1, 0, 1, 65535, 65536"""
+    d = NET[scheme]
+    return sorted(set(PORT_POOL) | {d - 1, d + 1, 0, 1, 65535, 65536})
+
+
+def port_matrix_cases():
+    """every scheme x port candidate x host kind x userinfo, grouped by everything but the port"""
+    groups = []
+    for scheme in NET:
+        for host in ('example.com', '127.0.0.1', '[::1]', 'EXAMPLE.com.'):
+            for ui in ('', 'u:p@'):
+                for tail in ('', '/a/b?c=d'):
+                    g = [Case('%s://%s%s%s' % (scheme, ui, host, tail), kind='port-matrix')]
+                    for port in port_candidates(scheme):
+                        g.append(Case('%s://%s%s:%d%s' % (scheme, ui, host, port, tail), kind='port-matrix'))
+                    groups.append(g)
+    return groups
+
+
+def oracle_ports(ctx, group):
+    """C10 on a group of URLs that differ only in the port: distinct effective ports => distinct normal
+    forms, equal ports => equal normal forms, and the normal form gives the port back"""
+    seen = {}
+    for c in group:
+        if c.exc is not None or c.info is None or c.info.scheme not in NET:
+            continue
+        try:
+            n = c.info.url
+        except Exception:
+            continue
+        port = c.info.port
+        for n2, (port2, url2) in seen.items():
+            if n2 == n and port2 != port:
+                ctx.fail('ports-collide', 'url', {'stream': 'ports', 'urls': [url2, c.url]},
+                         'distinct ports share one normal form: %r (port %r) and %r (port %r) -> %r' % (url2, port2, c.url, port, n))
+        for n2, (port2, url2) in seen.items():
+            if n2 != n and port2 == port:
+                ctx.fail('spellings-differ', 'url', {'stream': 'ports', 'urls': [url2, c.url]},
+                         'same port %r, different normal forms: %r -> %r, %r -> %r' % (port, url2, n2, c.url, n))
+        seen.setdefault(n, (port, c.url))
+
+
 class Spec:
     """A URL at the level the property speaks about; `render` chooses a spelling."""
 
@@ -593,7 +639,18 @@ class Spec:
                     v &= ~(0xffff << (16 * g))
             self.host = v
         default = NET[self.scheme]
-        self.port = rng.choice([None, None, default, default, rng.choice([1, 8080, 65535, 81, 444, 22])])
+        # explicit-port dimension: own default, the default of every OTHER scheme, neighbours, edges
+        r = rng.random()
+        if r < 0.25:
+            self.port = None
+        elif r < 0.4:
+            self.port = default
+        elif r < 0.65:
+            self.port = rng.choice([p for p in PORT_POOL if p != default and p in NET.values()])
+        elif r < 0.9:
+            self.port = rng.choice(port_candidates(self.scheme))
+        else:
+            self.port = rng.choice([1, 8080, 81, 444, 22, 8443, 10000])
         self.segs = [gen_segment(rng) for _ in range(rng.choice([0, 1, 1, 2, 3, 4]))]
         self.trailing = rng.random() < 0.3
         self.query = gen_query(rng) if rng.random() < 0.5 else None
